@@ -2,6 +2,7 @@ package container
 
 import (
 	"encoding/json"
+	"fmt"
 	"strings"
 
 	"github.com/sarchlab/akita/v5/queueing"
@@ -88,6 +89,20 @@ func (o *bufObj) Apply(a map[string]any) any {
 		}
 		o.b = nb
 		return "ok"
+	case "jsonintoused":
+		bs, err := json.Marshal(o.b)
+		if err != nil {
+			return "marshal error: " + err.Error()
+		}
+		nb := queueing.NewBuffer[int]("Other", o.b.Capacity()+2)
+		for i := 0; i < o.b.Capacity()+2; i++ {
+			nb.PushTyped(90 + i)
+		}
+		if err := json.Unmarshal(bs, &nb); err != nil {
+			return "unmarshal error: " + err.Error()
+		}
+		o.b = nb
+		return "ok"
 	case "restore":
 		els := replay.Ints(a["arg"])
 		return refusal(func() { o.b.Restore(els) })
@@ -95,7 +110,108 @@ func (o *bufObj) Apply(a map[string]any) any {
 	return "unknown op"
 }
 
+// recObj is the same buffer with a struct element type whose JSON omits zero fields: the
+// specification's value v stands for the element {A: v} (odd v) or {B: "s<v>"} (even v).
+type rec struct {
+	A     int    `json:"a,omitempty"`
+	B     string `json:"b,omitempty"`
+	Dirty bool   `json:"dirty,omitempty"`
+}
+
+func recOf(v int) rec {
+	if v == 0 {
+		return rec{}
+	}
+	if v%2 == 1 {
+		return rec{A: v}
+	}
+	return rec{B: fmt.Sprintf("s%d", v)}
+}
+
+func valOf(r rec) any {
+	for v := 0; v < 10; v++ {
+		if recOf(v) == r {
+			return v
+		}
+	}
+	return fmt.Sprintf("foreign element %+v", r)
+}
+
+type recObj struct{ b queueing.Buffer[rec] }
+
+func (o *recObj) vals() []any {
+	out := []any{}
+	for _, r := range o.b.Elements() {
+		out = append(out, valOf(r))
+	}
+	return out
+}
+
+func (o *recObj) Project() any { return map[string]any{"cap": o.b.Capacity(), "q": o.vals()} }
+
+func (o *recObj) Apply(a map[string]any) any {
+	switch replay.Str(a["op"]) {
+	case "canpush":
+		return o.b.CanPush()
+	case "size":
+		return o.b.Size()
+	case "capacity":
+		return o.b.Capacity()
+	case "peek":
+		return valOf(o.b.Peek())
+	case "elements":
+		return o.vals()
+	case "push":
+		return refusal(func() { o.b.PushTyped(recOf(replay.Num(a["arg"]))) })
+	case "pop":
+		return valOf(o.b.Pop())
+	case "updatefront":
+		o.b.UpdateFront(recOf(replay.Num(a["arg"])))
+		return "ok"
+	case "clear":
+		o.b.Clear()
+		return "ok"
+	case "snaprestore":
+		els := o.b.Elements()
+		nb := queueing.NewBuffer[rec](o.b.Name(), o.b.Capacity())
+		nb.Restore(els)
+		for i := range els {
+			els[i] = rec{A: -7, Dirty: true}
+		}
+		o.b = nb
+		return "ok"
+	case "jsonrt", "jsonintoused":
+		bs, err := json.Marshal(o.b)
+		if err != nil {
+			return "marshal error: " + err.Error()
+		}
+		var nb queueing.Buffer[rec]
+		if replay.Str(a["op"]) == "jsonintoused" {
+			// a live buffer whose elements have every field set
+			nb = queueing.NewBuffer[rec]("Other", o.b.Capacity()+2)
+			for i := 0; i < o.b.Capacity()+2; i++ {
+				nb.PushTyped(rec{A: 70 + i, B: "old", Dirty: true})
+			}
+		}
+		if err := json.Unmarshal(bs, &nb); err != nil {
+			return "unmarshal error: " + err.Error()
+		}
+		o.b = nb
+		return "ok"
+	case "restore":
+		var els []rec
+		for _, v := range replay.Ints(a["arg"]) {
+			els = append(els, recOf(v))
+		}
+		return refusal(func() { o.b.Restore(els) })
+	}
+	return "unknown op"
+}
+
 func init() {
+	reg.Register("buffer_struct", replay.Driver(func(cfg map[string]any, init any) (replay.Object, error) {
+		return &recObj{b: queueing.NewBuffer[rec]("B", replay.Num(replay.Field(init, "cap")))}, nil
+	}))
 	reg.Register("buffer", replay.Driver(func(cfg map[string]any, init any) (replay.Object, error) {
 		return &bufObj{b: queueing.NewBuffer[int]("B", replay.Num(replay.Field(init, "cap")))}, nil
 	}))
